@@ -386,7 +386,11 @@ impl<'a> Gen<'a> {
             String::new()
         } else if self.pct(15) {
             // labels are recorded exactly as supplied
-            self.rng.pick(&[" padded", "padded ", "\tx\n", " ", "a b", "\u{00A0}nbsp"]).to_string()
+match self.rng.below(8) {
+                0 => "l".repeat(300),
+                1 => "ユニコード-étiquette".to_string(),
+                _ => self.rng.pick(&[" padded", "padded ", "\tx\n", " ", "a b", "\u{00A0}nbsp"]).to_string(),
+            }
         } else {
             format!("c{}", self.rng.below(1000))
         };
@@ -394,6 +398,9 @@ impl<'a> Gen<'a> {
         if let Some(c) = m.st.contracts.keys().next() {
             admins.push(Some(c.clone()));
         }
+        // the admin of an instantiate message is recorded as supplied (not validated)
+        admins.push(Some("not an address".to_string()));
+        admins.push(Some(String::new()));
         let admin = self.rng.pick(&admins).clone();
         let admin = match admin {
             Some(a) => Some(self.spell(m, a)),
